@@ -28,7 +28,7 @@ if kind == "CCASE" and head[1].startswith("st-"):
     kind = head[0] = "STRESS"
 elif kind == "CCASE" and head[1].startswith(("p-", "e-")):
     kind = head[0] = "PCASE"
-pref = head[1].split("-")[0] + "-" if head[1].split("-")[0] in ("st", "p", "e", "t3", "ds", "xr", "lr") else ""
+pref = head[1].split("-")[0] + "-" if head[1].split("-")[0] in ("st", "p", "e", "t3", "ds", "xr", "lr", "dk", "ex", "dm") else ""
 head[1] = pref + "seeded-" + sid
 block[0] = " ".join(head)
 if kind in ("CCASE", "PCASE", "STRESS"):
